@@ -330,7 +330,33 @@ def h_uri_name(eng, case):
     eng.reach('end')
 
 
-HARNESSES = {'bytes_rt': h_bytes_rt, 'prefix': h_prefix, 'order': h_order, 'name_order': h_name_order,
+UNICODE_TEXTS = ['caf\u00e9', '\u00ff\u0080', '\u03a3\u03c0', 'a\u3042\u3044b c', '\U0001f600', 'plain-._~', '\u0100',
+                 '\u07ff\u0800', '\uffff', 'x\u00e9y\u03a3z\U00010000']
+
+
+def h_uri_text(eng, case):
+    """URI strings and str components with non-ASCII characters denote the UTF-8 octets of the text, through every entry
+    point that accepts text"""
+    Name, Component = _N()
+    texts = [UNICODE_TEXTS[i] for i in case['texts']]
+    exp = [env.concrete_component(8, t.encode('utf-8')) for t in texts]
+    uri = '/' + '/'.join(texts)
+    try:
+        eng.check(env.names_equal(Name.from_str(uri), exp), 'normalize-forms-agree', sig='from_str(text)')
+        eng.check(env.names_equal(Name.normalize(uri), exp), 'normalize-forms-agree', sig='normalize(text)')
+        eng.check(env.names_equal(Name.normalize(list(texts)), exp), 'normalize-forms-agree', sig='normalize(list of str)')
+        eng.check(beq(Name.to_bytes(uri), _ref_encode(exp)), 'normalize-forms-agree', sig='to_bytes(text)')
+        eng.check(Name.to_str(uri) == Name.to_str(exp), 'normalize-forms-agree', sig='to_str(text)')
+        eng.check(bool(Name.is_prefix(uri, exp)) and bool(Name.is_prefix(exp, uri)), 'prefix-test', sig='text-vs-components')
+        for t, c in zip(texts, exp):
+            eng.check(beq(Component.from_str(Component.escape_str(t)), c), 'uri-roundtrip', sig='escape_str(text)')
+    except Exception as e:
+        eng.fail('no-exception', exc_sig(e), repr(e)[:200])
+        return
+    eng.reach('end')
+
+
+HARNESSES = {'uri_text': h_uri_text, 'bytes_rt': h_bytes_rt, 'prefix': h_prefix, 'order': h_order, 'name_order': h_name_order,
              'number': h_number, 'uri_comp': h_uri_comp, 'uri_type': h_uri_type, 'uri_number': h_uri_number,
              'uri_name': h_uri_name}
 
@@ -348,6 +374,9 @@ def _shapes(maxn, alphabet):
 def cases(tier, seed):
     quick = tier == 'quick'
     cs = []
+    for i in range(len(UNICODE_TEXTS)):
+        cs.append(('uri_text', {'texts': [i]}))
+        cs.append(('uri_text', {'texts': [i, (i + 3) % len(UNICODE_TEXTS)]}))
     alpha = [(1, 0), (1, 1), (1, 3), (3, 2)]
     for sh in _shapes(3 if quick else 4, alpha):
         cs.append(('bytes_rt', {'shape': sh}))
